@@ -154,6 +154,9 @@ func NewLookupPartitionStrategyWithMetricRegistry(
 	}
 
 	unknownPartition := NewLookupPartitionWithMetricRegistry("<unknown>", 0.0, limit, registry)
+	// the unknown partition is a zero percent partition: its share is computed like any other
+	// (otherwise it keeps the whole limit as its own and admits beyond the total limit).
+	unknownPartition.UpdateLimit(limit)
 	strategy := &LookupPartitionStrategy{
 		partitions:       partitions,
 		unknownPartition: unknownPartition,
